@@ -149,6 +149,13 @@ Definition upd_part_in_dev (pid : Z) (f : part -> part) (x : dev) : dev :=
 Definition upd_part_everywhere (pid : Z) (f : part -> part) (w : fw) : fw :=
   w <| f_devs ::= map (fun e => (fst e, upd_part_in_dev pid f (snd e))) |>.
 
+(** PartHandler.notify_upstream_of_available_space: the waiting-for-part time starts only if a part could actually be taken *)
+Definition wait_if_empty (nw : Z) (w : fw) (d : Z) : fw :=
+  match d_part (getd w d), d_out (getd w d) with
+  | None, None => updd w d (dev_set_wait nw true false)
+  | _, _ => w
+  end.
+
 (** * notifications travelling upstream *)
 (** [up_mode = true]  : d.notify_upstream_of_available_space()
     [up_mode = false] : d.space_available_downstream() *)
@@ -161,9 +168,9 @@ Fixpoint signal (fuel : nat) (nw : Z) (up_mode : bool) (w : fw) (d : Z) : fw :=
     if up_mode then
       match d_kind x with
       | KHandler | KProcessor | KSource | KSink | KBatcher =>
-        notify_ups (updd w d (dev_set_wait nw true false))
+        notify_ups (wait_if_empty nw w d)
       | KBuffer =>
-        if inf_ltb (d_level x) (d_capacity x) then notify_ups (updd w d (dev_set_wait nw true false)) else w
+        if inf_ltb (d_level x) (d_capacity x) then notify_ups (wait_if_empty nw w d) else w
       | KGroupIn =>
         match aget (d_group x) (f_groups w) with
         | Some g => fold_left (fun w1 gp => signal f nw true w1 gp) (g_paths g) w
